@@ -69,7 +69,9 @@ Sanity0(ln) == { <<"X", "initial-configuration-not-as-specified">> : x \in
 \* the harness reports when it could not prepare the packet / header / misbehaviour an otherwise valid attempt needs
 SanityPrep(ln) == { <<"X", "preparation-failed">> : x \in IF "prep" \in DOMAIN ln /\ ln.prep # "" THEN {1} ELSE {} }
 
-TraceInit == l = 1 /\ S = StateOf(Trace[1].st) /\ obs = ObsOf(Trace[1].st) /\ Report(Trace[1], Sanity0(Trace[1]))
+OneLine == Len(Trace) = 1 => PrintT(<<"CONSUMED", 1>>)
+
+TraceInit == l = 1 /\ S = StateOf(Trace[1].st) /\ obs = ObsOf(Trace[1].st) /\ Report(Trace[1], Sanity0(Trace[1])) /\ OneLine
 
 TraceNext ==
     /\ l < Len(Trace)
